@@ -1,6 +1,7 @@
 package props
 
 import (
+	"bytes"
 	"encoding/json"
 	"fmt"
 	"reflect"
@@ -315,7 +316,7 @@ func init() {
 		Level: "model_checking",
 		Rule: "9 list kinds x two lists (3+2 elements of different shapes) x comment layouts (7 configurations per element: none, 1 or 2 leading lines, trailing, leading+trailing, inner, inner nested list with trailing + dangling comment) x separator {newline, blank line, inline}; " +
 			"layouts whose elements do not all carry the same (Before, After) are outside the quantifier (counted); explicit-state BFS from the identity arrangement over swap/delete/duplicate-with-Clone (after, at end)/move-to-other-list, " +
-			"depth 1 on all layouts and depth 2 on 49 per kind (quick); depth 2 on all layouts and depth 3 on the 7 uniform ones per kind (thorough); successor = fresh parse + replay; oracle: print == gofmt(text whose chunks were edited the same way); equal arrangements reached by different histories print equally; " +
+			"depth 1 on all layouts and depth 2 on 49 per kind (quick); depth 2 on all layouts and depth 3 on the 7 uniform ones per kind (thorough); successor = fresh parse + replay; oracle: print (plain, and by a Restorer with Extras) == gofmt(text whose chunks were edited the same way); equal arrangements reached by different histories print equally; " +
 			"state = (kind, layout, arrangement of element ids); non-trivial = arrangement differing from the identity with at least one comment",
 		Assumptions: []string{"a chunk = element + its directly preceding comment lines + its trailing same-line comment", "go/format normalises both sides"},
 		Units: func(tier string) []string {
@@ -520,6 +521,20 @@ func c02Exec(cs c02Case) (out core.Outcome, key string, uniform bool) {
 		}
 		if err != nil {
 			return fail("print-error", "%v", err)
+		}
+		// the same tree printed by a Restorer with Extras must not differ (objects of deleted or cloned
+		// elements still point at their old declarations)
+		if got == w {
+			var xerr error
+			var buf2 bytes.Buffer
+			ex2 := decorator.NewRestorer()
+			ex2.Extras = true
+			if p := guard(func() { xerr = ex2.Fprint(&buf2, f) }); p != "" {
+				return fail("extras-print-panic", "printing the edited tree with Extras panicked: %s", p)
+			}
+			if xerr == nil && buf2.String() != w {
+				return fail("extras-print-differs:"+k.Name, "file %d: the edited tree printed with Restorer.Extras differs\n%s", i, diffDesc(w, buf2.String()))
+			}
 		}
 		if got != w {
 			if len(cs.Hist) == 0 {
